@@ -9,10 +9,11 @@
    transitions (rollback); (4) what a transition exits and what it enters is confined to the transition domain.
    REFUTED as a universal invariant of the code at HEAD: a transition targeting the machine root (finding F5) exits
    everything and enters nothing - kernel-checked witness below.
+   (1b) the configuration built by the initial entry is legal for every well-formed machine (C01_initial_configuration_legal);
    PARTIAL: that exit_set + entry path + default descent re-establish legality for every OTHER target shape is
    decided by the correspondence (legal is evaluated inside Coq on every generated run: exhaustive small trees x all
    source/target pairs, plus random machines) and by the monitor on the implementation, not by an inductive proof. *)
-From XSM Require Import Model.Macro Model.Snap Proofs.LegalP Proofs.ExecP Proofs.FaultP Proofs.StepP.
+From XSM Require Import Model.Macro Model.Snap Proofs.LegalP Proofs.ExecP Proofs.FaultP Proofs.StepP Proofs.DescentP.
 From Coq Require Import Permutation.
 
 Theorem C01_legal_is_the_definition : forall m C, legal m C = true <-> Legal m C.
@@ -34,6 +35,24 @@ Theorem C01_snapshot_restores_legal : forall m s r,
   Legal m (s_cfg s) -> restore m (persist m s) = Some r -> Legal m (s_cfg r).
 Proof. exact restore_legal. Qed.
 Print Assumptions C01_snapshot_restores_legal.
+
+(* the configuration start() builds by entering the root is legal: for EVERY well-formed machine whose compound states
+   declare a (non-history) initial child, both engines, whatever the entry actions do - if the entry does not fail *)
+Theorem C01_initial_configuration_legal : forall m, wf m = true -> good_initials m = true ->
+  forall eng pr ev s s', s_cfg s = [] -> enter eng pr m [0] ev s = (s', None) -> Legal m (s_cfg s').
+Proof. exact initial_entry_legal. Qed.
+Print Assumptions C01_initial_configuration_legal.
+
+(* ... and it is exactly the default descent from the root *)
+Theorem C01_entry_is_default_descent : forall m, wf m = true -> forall eng pr f l ev s s',
+  ok_list m l -> enter_states f eng pr m l ev s = (s', None) ->
+  s_cfg s' = add_all (List.concat (map (descent f m) l)) (s_cfg s).
+Proof. exact enter_states_cfg. Qed.
+Print Assumptions C01_entry_is_default_descent.
+
+Theorem C01_default_descent_legal : forall m, wf m = true -> good_initials m = true -> forall f, size m < f -> Legal m (descent f m 0).
+Proof. exact descent_legal. Qed.
+Print Assumptions C01_default_descent_legal.
 
 (* steps that keep the configuration *)
 Theorem C01_unhandled_keeps : forall eng pr m ev s,
@@ -89,7 +108,9 @@ Definition ex_m : machine := Build_machine
     Build_node "m.p.h" (Some 1) (KHistory true) [] None 2 [] [] [] None [] [] None None;
     n_ "m.o" (Some 0) KAtomic [] None 1 [] ] 10 None.
 Example C01_ex :
-  wf ex_m = true /\ legal ex_m [0; 1; 2; 4; 5; 6] = true /\ legal ex_m [6; 5; 4; 2; 1; 0] = true
+  wf ex_m = true /\ good_initials ex_m = true /\ descent 10 ex_m 0 = [0; 1; 2; 3; 5; 6] /\
+  s_cfg (fst (enter Sync true ex_m [0] None (st_init []))) = [0; 1; 2; 3; 5; 6] /\
+  legal ex_m [0; 1; 2; 4; 5; 6] = true /\ legal ex_m [6; 5; 4; 2; 1; 0] = true
   /\ legal ex_m [0; 1; 2; 3; 4; 5; 6] = false      (* two active children of a compound state *)
   /\ legal ex_m [0; 1; 2; 4] = false               (* a region of an active parallel state missing *)
   /\ legal ex_m [0; 1; 2; 4; 5; 6; 7] = false      (* an active history pseudo-state *)
